@@ -10,7 +10,7 @@ import pipe_impl
 
 META = {
     'theorem_files': ['Props/C07.v'],
-    'theorems': ['C07_reader_steps_total', 'C07_walker_total', 'C07_validation_total', 'C07_driver_total', 'C07_shipped_environment_ok', 'C07_shipped_total', 'C07_letter_terminator_raises', 'C07_pipeline_off_is_driver', 'C07_pipeline_total', 'C07_shipped_sinks_ok'],
+    'theorems': ['C07_reader_steps_total', 'C07_walker_total', 'C07_validation_total', 'C07_driver_total', 'C07_shipped_environment_ok', 'C07_shipped_total', 'C07_letter_terminator_raises', 'C07_pipeline_off_is_driver', 'C07_pipeline_total', 'C07_shipped_sinks_ok', 'C07_context_reader_total', 'C07_shipped_context_reader_total', 'C07_context_reader_wrapper_loop_raises'],
     'trusted_base': [
         'Coq 8.16.1 kernel; no native_compute',
         'Model/Pipeline.v (+ Driver, Walker, Element, Errh, Html, XmlOut, Ack997/999, Reader, Raw): hand transcription of '
